@@ -193,4 +193,145 @@ example :
     decodeBindTail (encodeBind { pfmts := [1], params := [none, some []], rfmts := [0, 1] } ++ [9]) =
       some ([(1, none), (1, some [])], [0, 1], [9]) := by decide
 
+/-! ### soundness: the decoder never fabricates -/
+
+theorem rd16_sound (m : Bytes) (n : Nat) (r : Bytes) (h : rd16 m = some (n, r)) : m = be16 n ++ r ∧ n < 65536 := by
+  match m, h with
+  | a :: b :: r', h =>
+    simp [rd16] at h
+    obtain ⟨rfl, rfl⟩ := h
+    have ha := UInt8.toNat_lt a
+    have hb := UInt8.toNat_lt b
+    refine ⟨?_, by omega⟩
+    have h1 : (a.toNat * 256 + b.toNat) / 256 % 256 = a.toNat := by omega
+    have h2 : (a.toNat * 256 + b.toNat) % 256 = b.toNat := by omega
+    simp [be16, h1, h2]
+
+theorem rd32_sound (m : Bytes) (n : Nat) (r : Bytes) (h : rd32 m = some (n, r)) : m = be32 n ++ r ∧ n < 4294967296 := by
+  match m, h with
+  | a :: b :: c :: d :: r', h =>
+    simp [rd32] at h
+    obtain ⟨rfl, rfl⟩ := h
+    have ha := UInt8.toNat_lt a
+    have hb := UInt8.toNat_lt b
+    have hc := UInt8.toNat_lt c
+    have hd := UInt8.toNat_lt d
+    refine ⟨?_, by omega⟩
+    have h1 : (a.toNat * 16777216 + b.toNat * 65536 + c.toNat * 256 + d.toNat) / 16777216 % 256 = a.toNat := by omega
+    have h2 : (a.toNat * 16777216 + b.toNat * 65536 + c.toNat * 256 + d.toNat) / 65536 % 256 = b.toNat := by omega
+    have h3 : (a.toNat * 16777216 + b.toNat * 65536 + c.toNat * 256 + d.toNat) / 256 % 256 = c.toNat := by omega
+    have h4 : (a.toNat * 16777216 + b.toNat * 65536 + c.toNat * 256 + d.toNat) % 256 = d.toNat := by omega
+    simp [be32, h1, h2, h3, h4]
+
+theorem getBytes_sound (n : Nat) (m v r : Bytes) (h : getBytes n m = some (v, r)) : m = v ++ r ∧ v.length = n := by
+  unfold getBytes at h
+  split at h
+  · simp at h
+  · simp at h
+    obtain ⟨rfl, rfl⟩ := h
+    exact ⟨(List.take_append_drop n m).symm, by simp; omega⟩
+
+theorem readCodes_sound : ∀ (n : Nat) (m : Bytes) (cs : List Nat) (r : Bytes), readCodes n m = some (cs, r) →
+    m = cs.flatMap be16 ++ r ∧ cs.length = n := by
+  intro n
+  induction n with
+  | zero => intro m cs r h; simp [readCodes] at h; obtain ⟨rfl, rfl⟩ := h; simp
+  | succ k ih =>
+    intro m cs r h
+    simp only [readCodes] at h
+    split at h
+    · simp at h
+    · rename_i c r1 heq
+      split at h
+      · simp at h
+      · rename_i cs' r' heq2
+        simp at h
+        obtain ⟨rfl, rfl⟩ := h
+        obtain ⟨a, _⟩ := rd16_sound _ _ _ heq
+        obtain ⟨b, c'⟩ := ih _ _ _ heq2
+        refine ⟨?_, by simp [c']⟩
+        rw [a, b]; simp
+
+/-- **no fabrication**: whatever the value loop returns is literally in the message, at the
+    position and with the length the message declares — the input is the encoding of the output -/
+theorem readValues_sound (formats : List Nat) (dflt : Nat) : ∀ (n i : Nat) (m : Bytes) (ps : List Param) (r : Bytes),
+    readValues formats dflt n i m = some (ps, r) →
+    m = (ps.map (·.2)).flatMap encValue ++ r ∧ ps.length = n := by
+  intro n
+  induction n with
+  | zero => intro i m ps r h; simp [readValues] at h; obtain ⟨rfl, rfl⟩ := h; simp
+  | succ k ih =>
+    intro i m ps r h
+    simp only [readValues] at h
+    split at h
+    · simp at h
+    · rename_i len r1 heq
+      obtain ⟨a, hl⟩ := rd32_sound _ _ _ heq
+      split at h
+      · rename_i hnull
+        split at h
+        · simp at h
+        · rename_i ps' r' heq2
+          simp at h
+          obtain ⟨rfl, rfl⟩ := h
+          obtain ⟨b, c⟩ := ih _ _ _ _ heq2
+          refine ⟨?_, by simp [c]⟩
+          rw [a, b, hnull]; simp [encValue]
+      · split at h
+        · simp at h
+        · rename_i v r' heq3
+          split at h
+          · simp at h
+          · rename_i ps' r'' heq2
+            simp at h
+            obtain ⟨rfl, rfl⟩ := h
+            obtain ⟨b, c⟩ := ih _ _ _ _ heq2
+            obtain ⟨d, e⟩ := getBytes_sound _ _ _ _ heq3
+            refine ⟨?_, by simp [c]⟩
+            rw [a, d, b]; simp [encValue, e]
+
+/-- **C08 / C04 (no fabricated parameters).** Whenever the Bind decoder accepts a message body,
+    that body IS the client-side encoding of exactly the parameters and result-format codes it
+    returns (for some list of parameter format codes), followed by the untouched rest: every value
+    handed to the statement function is a contiguous piece of the message of the declared length;
+    a lying count or length can only make the decoder reject. -/
+theorem C08_sound (m : Bytes) (ps : List Param) (rf : List Nat) (r : Bytes) (h : decodeBindTail m = some (ps, rf, r)) :
+    ∃ pf : List Nat, m = encodeBind { pfmts := pf, params := ps.map (·.2), rfmts := rf } ++ r := by
+  unfold decodeBindTail at h
+  cases h1 : getU16 m with
+  | none => simp [h1] at h
+  | some p1 =>
+    obtain ⟨nf, r1⟩ := p1
+    simp only [h1] at h
+    cases h2 : readCodes nf r1 with
+    | none => simp [h2] at h
+    | some p2 =>
+      obtain ⟨pf, r2⟩ := p2
+      simp only [h2] at h
+      cases h3 : getU16 r2 with
+      | none => simp [h3] at h
+      | some p3 =>
+        obtain ⟨np, r3⟩ := p3
+        simp only [h3] at h
+        split at h
+        · simp at h
+        · rename_i ps' r4 h4
+          split at h
+          · simp at h
+          · rename_i nr r5 h5
+            split at h
+            · simp at h
+            · rename_i rf' r6 h6
+              simp at h
+              obtain ⟨rfl, rfl, rfl⟩ := h
+              obtain ⟨a1, _⟩ := rd16_sound _ _ _ h1
+              obtain ⟨a2, l2⟩ := readCodes_sound _ _ _ _ h2
+              obtain ⟨a3, _⟩ := rd16_sound _ _ _ h3
+              obtain ⟨a4, l4⟩ := readValues_sound _ _ _ _ _ _ _ h4
+              obtain ⟨a5, _⟩ := rd16_sound _ _ _ h5
+              obtain ⟨a6, l6⟩ := readCodes_sound _ _ _ _ h6
+              refine ⟨pf, ?_⟩
+              rw [a1, a2, a3, a4, a5, a6]
+              simp [encodeBind, l2, l4, l6]
+
 end Pw.Props.C08
